@@ -354,6 +354,7 @@ def checkRun (m : Mol) (env : Env) (opts : Opts) : String :=
     let fails := (if rs.all (roundOk m) then [] else ["round"]) ++
                  (if closuresOk ts then [] else ["closures"]) ++
                  (if cyclesWF [] [] (rs.flatMap roundCycles) then [] else ["cycles"]) ++
+                 (if decide (rs.flatMap fun r => closureAtoms r.smi r.tokens).Nodup then [] else ["once"]) ++
                  (if parensOk ts then [] else ["parens"]) ++
                  (if tokensDenoteMol m opts rs ts then [] else ["denote"]) ++
                  (match readToks ts with
